@@ -204,9 +204,13 @@ def compare_ops(kind, real_out, model_line, X, samples, node, wts):
 
 # ------------------------------------------------------------------------------ correspondence
 
-def gen_case(rng, n, kind, weighted, d):
+def gen_case(rng, n, kind, weighted, d, degenerate=False):
     ids = list(range(n))
     rng.shuffle(ids)
+    if degenerate:
+        # rank-deficient designs: few distinct feature values (a feature constant on a range is collinear with the
+        # intercept; with d = 2 two distinct values leave [x, x^2, 1] of rank 2)
+        ids = [rng.choice([1, 3]) if rng.random() < 0.8 else rng.randint(0, 4) for _ in range(n)]
     X = moment_X(ids, d) if kind == "lin" else None
     y = [rng.randint(-9, 9) for _ in range(n)]
     w = [rng.randint(1, 4) for _ in range(n)] if weighted else None
@@ -537,7 +541,8 @@ def search(ctx, hints):
             for rep in range(ctx.pick(2, 4)):
                 weighted = rep % 2 == 1
                 d = 1 if rep < 3 else 2
-                X, y, w, samples_, wN = gen_case(rng, n, kind, weighted, d)
+                X, y, w, samples_, wN = gen_case(rng, n, kind, weighted, d,
+                                                 degenerate=(kind == "lin" and not weighted and rep == 0 and n >= 4))
                 for start, pos, end in triples(n):
                     if node_weight(w, samples_, start, end) == 0:
                         continue
